@@ -39,7 +39,7 @@ def main() -> None:
                     "design_ref": "DESIGN.md section 7, %s" % pid,
                 },
                 "level_note": m.get("note", "Trusted base: TLC 1.8, the Python concretize/project layer (representation only, no semantics), pandas/polars as data carriers. Exhaustive only inside the stated small constants."),
-                "technique": m.get("technique", "explicit TLA+ specification model-checked with TLC; TLC-generated vectors replayed into the implementation (spec->code conformance)"),
+                "technique": m.get("technique") or reg[pid].technique or ("explicit TLA+ specification model-checked with TLC; TLC-generated vectors replayed into the implementation (spec->code conformance)"),
             })
         else:
             na.append({"property_id": pid, "reason": meta.get(pid, {}).get("na", PENDING_REASON)})
